@@ -119,7 +119,7 @@ fn module_of(c: &Case) -> String {
     if c.kind == "extern_value_only_module" {
         items = vec![Item::ExternValue { name: "gv".into(), public: c.public, ty: match c.ety { 0 => MTy::b("u32"), 1 => MTy::b("u8").mptr(), _ => MTy::b("u16").arr(4) }, address: Some(c.addr as i128) }];
     }
-    let text = Printer { style: c.style, reverse_type_attrs: false, docs_after_attrs: false }.module(&ModuleS::new("m").with(items));
+    let text = Printer { style: c.style, reverse_type_attrs: false, docs_after_attrs: false, attr_order: 0 }.module(&ModuleS::new("m").with(items));
     recontext(&text, c.ctx)
 }
 
@@ -385,7 +385,7 @@ fn pair_module(p: &Pair) -> String {
     let first = pair_items(MENU[p.a].0, MENU[p.a].1, p.addr_a, p.pub_a, "");
     let second = pair_items(MENU[p.b].0, MENU[p.b].1, p.addr_b, p.pub_b, "2");
     let items: Vec<Item> = if p.swapped { second.into_iter().chain(first).collect() } else { first.into_iter().chain(second).collect() };
-    Printer { style: NumStyle::Hex, reverse_type_attrs: false, docs_after_attrs: false }.module(&ModuleS::new("m").with(items))
+    Printer { style: NumStyle::Hex, reverse_type_attrs: false, docs_after_attrs: false, attr_order: 0 }.module(&ModuleS::new("m").with(items))
 }
 
 fn run_pairs(rep: &mut Report, only_i: Option<usize>) {
